@@ -53,6 +53,7 @@ class Shard:
         self.harness_error = None
         self.skipped_budget = 0
         self.slowest = []             # [(seconds, case)] top 3
+        self.history = []             # the last cases evaluated in this process (context for failures that need process state)
         # hypothesis round state
         self.target = None
         self.best_case = None
@@ -93,10 +94,17 @@ class Shard:
         elif self.trivial_sample is None:
             self.trivial_sample = {"case": jsonable(case), "labels": list(info.labels), "trivial": True}
 
+    def remember(self, case):
+        self.history.append(jsonable(case))
+        if len(self.history) > 2400:
+            del self.history[:400]
+
     def run_plain(self, case, source):
         """Evaluate outside Hypothesis (regress replays, enumerations).  Violations recorded once per bucket."""
         if self.harness_error:
             return
+        context = list(self.history)
+        self.remember(case)
         try:
             info = self.mod.evaluate(case)
         except Violation as v:
@@ -110,7 +118,7 @@ class Shard:
                 self.excluded[b] = self.excluded.get(b, 0) + 1
                 return
             self.done_buckets.add(b)
-            self.violations.append({"case": jsonable(case), "violation": v.to_json(), "source": source})
+            self.violations.append({"case": jsonable(case), "violation": v.to_json(), "source": source, "context": context})
         except Exception:
             self.harness_error = f"evaluate crashed on {source} case {json.dumps(jsonable(case))[:2000]}\n" + traceback.format_exc()
         else:
@@ -126,6 +134,7 @@ class Shard:
             self.generated += 1
         elif time.time() - self.shrink_start > self.shrink_budget and case != self.best_case:
             return      # shrink budget used up: let the shrinker converge on the best case found so far
+        self.remember(case)
         try:
             t1 = time.time()
             try:
@@ -147,6 +156,7 @@ class Shard:
             if self.target is None:
                 self.target = b
                 self.shrink_start = time.time()
+                self.fail_context = list(self.history)
             if b != self.target:
                 return
             self.best_case = copy.deepcopy(case)
@@ -231,7 +241,8 @@ class Shard:
                                       + json.dumps(jsonable(case))[:2000] + f"\nfirst: {v}\nreplay: {confirmed}")
                 break
             self.done_buckets.add(self.target)
-            self.violations.append({"case": jsonable(case), "violation": confirmed.to_json(), "source": "generated+shrunk"})
+            self.violations.append({"case": jsonable(case), "violation": confirmed.to_json(), "source": "generated+shrunk",
+                                    "context": [c for c in self.history if c != jsonable(case)]})
         return self.result()
 
     def result(self):
